@@ -1190,7 +1190,7 @@ def wsdl_oracle(env, items, info, m, lines=None):
     if lines is not None:
         locs = [l for l in lines if isinstance(RO.one(l), str) and re.match(r'\s*location: "', RO.one(l))]
         ok = len(locs) == 1 and RO.sym_eq(smap(lambda l: re.match(r'\s*location: "(.*)"\.to_string\(\),\s*$', l).group(1) if re.match(r'\s*location: "(.*)"\.to_string\(\),\s*$', l) else None, locs[0]),
-                                          native.url_parse(info.wsdl.location), env.allowed) if len(locs) == 1 else False
+                                          env.map(native.url_parse, getattr(info, 'location', info.wsdl.location)), env.allowed) if len(locs) == 1 else False
         out.append(O.Check('service-address', 'the client posts to the address of the WSDL port', ok))
     return out
 
@@ -1638,6 +1638,30 @@ def cli_hook(vfs, argv):
         a0 = args[0] if args else None
         if c in ('init', 'env_logger::init'):
             return ()
+        if c.startswith('BufWriter::') or c.startswith('std::io::BufWriter::') or c.startswith('LineWriter::'):
+            if meth in ('new', 'with_capacity'):
+                return args[-1]          # buffering is transparent here: bytes count as written when handed over
+            if meth == 'into_inner':
+                return OK(a0)
+            if meth in ('get_ref', 'get_mut'):
+                return a0
+        if c.startswith('OpenOptions::') or c.startswith('std::fs::OpenOptions::'):
+            if meth == 'new':
+                return Opaque('OpenOptions', {})
+            if meth in ('write', 'create', 'truncate', 'append', 'read', 'create_new'):
+                deref(a0).data[meth] = args[1]
+                return a0
+            if meth == 'open':
+                o = deref(a0).data
+                f = vfs.abs(as_str(args[1]))
+                vfs.events.append(('create', f))
+                if f is None or posixpath.dirname(f) not in vfs.dirs:
+                    return ERR(Opaque('io::Error', {'kind': 'NotFound'}))
+                if f not in vfs.files and not (o.get('create') or o.get('create_new')):
+                    return ERR(Opaque('io::Error', {'kind': 'NotFound'}))
+                if o.get('truncate') or f not in vfs.files:
+                    vfs.files[f] = ''
+                return OK(VFile(vfs, f))
         if c.startswith('clap::Command::') or c.startswith('Arg::') or c.startswith('clap::Arg::'):
             if meth == 'get_matches':
                 if '-i' not in argv:
@@ -1664,6 +1688,15 @@ def cli_hook(vfs, argv):
             return vfs.abs(p) in vfs.files or vfs.abs(p) in vfs.dirs
         if c.startswith('Path::file_name'):
             return opt(rust_file_name(p))
+        if c.startswith('Path::file_stem'):
+            fn = rust_file_name(p)
+            if fn is None:
+                return NONE()
+            return SOME(fn.rsplit('.', 1)[0] if '.' in fn[1:] else fn)
+        if c.startswith('Path::with_file_name'):
+            par = rust_parent(p)
+            name = as_str(args[1])
+            return name if par in (None, '') else (par.rstrip('/') + '/' + name)
         if c.startswith('Path::parent'):
             return opt(rust_parent(p))
         if c.startswith('Path::extension'):
@@ -1750,8 +1783,18 @@ def cli_hook(vfs, argv):
 
 GOOD_A = '<xs:schema xmlns:xs="http://www.w3.org/2001/XMLSchema" xmlns:t="urn:a" xmlns:b="urn:b" targetNamespace="urn:a"><xs:import namespace="urn:b" schemaLocation="b.xsd"/><xs:complexType name="A"><xs:sequence><xs:element name="x" type="b:B"/></xs:sequence></xs:complexType></xs:schema>'
 GOOD_B = '<xs:schema xmlns:xs="http://www.w3.org/2001/XMLSchema" xmlns:b="urn:b" targetNamespace="urn:b"><xs:complexType name="B"><xs:sequence><xs:element name="y" type="xs:int"/></xs:sequence></xs:complexType></xs:schema>'
+LATE = None
+
+
+def _late_failure_doc():
+    from xmltree import build as _b, to_xml as _x
+    single = _x(_b(F.wsdl_multi(1, multipart=False).tree()))
+    return single.replace('<xs:element name="GetQuoteRequest">', '<xs:attribute name="GetQuoteRequest" type="xs:string"/><xs:element name="Unused">', 1)
+
+
 INPUTS = {
     'good': GOOD_A,
+    'fails-while-writing': _late_failure_doc(),
     'malformed': '<xs:schema xmlns:xs="http://www.w3.org/2001/XMLSchema"><xs:complexType name="A">',
     'unresolved-import': GOOD_A.replace('b.xsd', 'nowhere.xsd'),
 }
@@ -1767,19 +1810,22 @@ def c17(tier):
         pre = Selector('preexisting_output', ['absent', 'shorter', 'longer'])
         content = Selector('input_content', list(INPUTS))
         sibling = Selector('sibling', ['readable', 'unreadable'])
+        inname = Selector('input_name', ['a.xsd', 'a.v2.xsd'])
         OLD = {'absent': None, 'shorter': '// old\n', 'longer': '// old output\n' + '// padding line\n' * 4000}
         s.scenarios += 1
 
         def entry(m):
-            for sel in (spelling, outarg, pre, content, sibling):
+            for sel in (spelling, outarg, pre, content, sibling, inname):
                 m.pc.append(sel.domain)
             sp = m.concretize(spelling.sym())
             oa = m.concretize(outarg.sym())
             pr = m.concretize(pre.sym())
             ct = m.concretize(content.sym())
             sb = m.concretize(sibling.sym())
+            nm = m.concretize(inname.sym())
+            sp = (sp[0], sp[1], sp[2].replace('a.xsd', nm))
             events = []
-            files = {'/w/in/a.xsd': INPUTS[ct], '/w/in/b.xsd': GOOD_B, '/w/in/readme.txt': 'not a schema'}
+            files = {'/w/in/' + nm: INPUTS[ct], '/w/in/b.xsd': GOOD_B, '/w/in/readme.txt': 'not a schema', '/w/in/a.rs.keep': 'unrelated'}
             vfs = VFS(files, {'/w', '/w/in', '/w/out', '/'}, sp[1], events)
             if sb == 'unreadable':
                 vfs.unreadable.add('/w/in/b.xsd')
@@ -1796,7 +1842,7 @@ def c17(tier):
                 m.run(main, [])
             except Panic as e:
                 outcome = 'panic: ' + str(e)[:80]
-            return dict(spelling=sp[0], output_arg=oa, pre=pr, content=ct, sibling=sb, outcome=outcome, events=events, vfs=vfs,
+            return dict(spelling=sp[0], arg=sp[2], cwd=sp[1], input_name=nm, output_arg=oa, pre=pr, content=ct, sibling=sb, outcome=outcome, events=events, vfs=vfs,
                         expected_out=expected_out, old=OLD[pr])
         res = explore(lambda: H.machine(ctx, binary=True), entry)
         s.count(res)
@@ -1827,7 +1873,7 @@ def c17(tier):
                     stage = 'input-missing' if r['spelling'] == 'missing-file' else 'sibling-unreadable' if r['sibling'] == 'unreadable' and r['content'] == 'good' else r['content']
                     found.setdefault('c17/failure-clobbers-output/' + stage, ('generation fails (%s) but the pre-existing output %s is %s' % (
                         stage, r['expected_out'], 'truncated / rewritten' if final is not None else 'removed'), r))
-        s.samples.append(dict(paths=len(res), symbolic={x.name: [o if not isinstance(o, tuple) else o[0] for o in x.options] for x in (spelling, outarg, pre, content, sibling)},
+        s.samples.append(dict(paths=len(res), symbolic={x.name: [o if not isinstance(o, tuple) else o[0] for o in x.options] for x in (spelling, outarg, pre, content, sibling, inname)},
                               violations=sorted(found)))
         # native replay with the real binary in a scratch directory
         for key, (what, r) in sorted(found.items()):
@@ -1838,15 +1884,14 @@ def c17(tier):
             try:
                 os.makedirs(d + '/w/in')
                 os.makedirs(d + '/w/out')
-                open(d + '/w/in/a.xsd', 'w').write(INPUTS[r['content']])
+                open(d + '/w/in/' + r['input_name'], 'w').write(INPUTS[r['content']])
                 open(d + '/w/in/b.xsd', 'w').write(GOOD_B)
                 open(d + '/w/in/readme.txt', 'w').write('not a schema')
                 if r['sibling'] == 'unreadable':
                     os.remove(d + '/w/in/b.xsd')
                     os.makedirs(d + '/w/in/b.xsd')      # a directory named b.xsd: read_to_string fails (root ignores permissions)
-                sp = [o for o in spelling.options if o[0] == r['spelling']][0]
-                cwd = d + sp[1]
-                arg = sp[2] if not sp[2].startswith('/') else d + sp[2]
+                cwd = d + r['cwd']
+                arg = r['arg'] if not r['arg'].startswith('/') else d + r['arg']
                 outp = d + r['expected_out']
                 if r['old'] is not None:
                     open(outp, 'w').write(r['old'])
@@ -1875,7 +1920,7 @@ def c17(tier):
                 s.rep.inconc('ENCODING-MISMATCH %s: native rc=%s, output %s' % (key, rc, 'unchanged' if final == r['old'] else 'changed'))
     return run_e2('C17', tier, body, level='other',
                   bounds='path spelling in {absolute, relative with directory, ./name, bare name, missing file} x --output in {absent, absolute, relative} x pre-existing output in {absent, shorter, longer} '
-                         'x input in {good, malformed XML, unresolved import} x sibling readable/unreadable: 270 combinations, all explored (selectors concretised by the solver).',
+                         'x input in {good, malformed XML, unresolved import} x sibling readable/unreadable x input name with one or two dots: 540 combinations, all explored (selectors concretised by the solver).',
                   explanation='Claimed for the ordering / derivation logic of main and read_input_file_and_xsd_files_at_path only. Their MIR is executed over a model of clap (argument lookup) and of '
                               'std::path / std::fs (Path algebra per std\'s documented component semantics, a file-system map with create = truncate). Every run is compared with the library output '
                               'computed from the same MIR; every finding is replayed with the natively built zeep binary in a scratch directory. Real OS behaviour (permissions, symlinks, '
@@ -1953,6 +1998,53 @@ def c13(tier):
                 else:
                     s.rep.inconc('ENCODING-MISMATCH %s: SMI %s (%s) but native rc=%s: %s' % (key, kind, active, rc, (log_ or '')[-200:].replace('\n', ' | ')))
             s.samples.append(stats)
+        # supported-subset families with adversarial text (non-ASCII URIs, keyword / odd names): no path may panic or diverge
+        for sc, info in [F.s_xref(tier), F.n_within(tier)] + F.inject_all(tier):
+            s.scenarios += 1
+            res = sc.explore(ctx)
+            s.count(res)
+            bad = [(m, out) for m, out in res if out[0] in ('panic', 'diverge')]
+            s.samples.append(dict(scenario='no-panic:' + sc.name, paths=len(res), panics=len(bad)))
+            seen_k = set()
+            for m, out in bad:
+                e = out[1]
+                where = re.sub(r'<impl at [^>]*>', '<impl>', getattr(e, 'where', '') or '')
+                key = 'c13/%s/%s/%s' % ('panic' if out[0] == 'panic' else 'non-termination', where.split('::')[-1] or '?', re.sub(r'[^\w ]+', '', str(e))[:40].strip().replace(' ', '-'))
+                if key in seen_k:
+                    continue
+                seen_k.add(key)
+                model = sc.solve(m)
+                params = sc.params(model)
+                rc, txt, log_, cfiles = sc.native(ctx, model)
+                s.replays += 1
+                rdir = save_replay('C13', re.sub(r'\W+', '_', key)[:80], dict(list(cfiles.items()) + [('finding.txt', '%s\n%s in %s\nparameters: %s\nnative rc=%s\n%s\n' % (key, e, where, params, rc, (log_ or '')[-600:]))]))
+                lib_panic = rc != 0 and ('panicked' in (log_ or '') or 'overflowed its stack' in (log_ or '')) and not re.search(r"main\.rs:\d+:\d+:\ncan not (read xml|write xml|read input file|create file)", log_ or '')
+                if lib_panic:
+                    s.rep.violation(key, '%s: %s with %s' % (sc.name, e, {k: v for k, v in params.items()}), rdir)
+                else:
+                    s.rep.inconc('ENCODING-MISMATCH %s: SMI %s but native rc=%s: %s' % (key, e, rc, (log_ or '')[-200:].replace('\n', ' | ')))
+        # definitions that refer to themselves or to each other through forward references
+        cyc_docs = {
+            'mutual-extension': '<xs:schema xmlns:xs="http://www.w3.org/2001/XMLSchema" xmlns:t="urn:t" targetNamespace="urn:t"><xs:complexType name="A"><xs:complexContent><xs:extension base="t:B"><xs:sequence><xs:element name="a" type="xs:string"/></xs:sequence></xs:extension></xs:complexContent></xs:complexType><xs:complexType name="B"><xs:complexContent><xs:extension base="t:A"><xs:sequence><xs:element name="b" type="xs:string"/></xs:sequence></xs:extension></xs:complexContent></xs:complexType></xs:schema>',
+            'self-extension': '<xs:schema xmlns:xs="http://www.w3.org/2001/XMLSchema" xmlns:t="urn:t" targetNamespace="urn:t"><xs:complexType name="A"><xs:complexContent><xs:extension base="t:A"><xs:sequence><xs:element name="a" type="xs:string"/></xs:sequence></xs:extension></xs:complexContent></xs:complexType></xs:schema>',
+            'element-ref-cycle': '<xs:schema xmlns:xs="http://www.w3.org/2001/XMLSchema" xmlns:t="urn:t" targetNamespace="urn:t"><xs:element name="P"><xs:complexType><xs:sequence><xs:element ref="t:Q"/></xs:sequence></xs:complexType></xs:element><xs:element name="Q"><xs:complexType><xs:sequence><xs:element ref="t:P" minOccurs="0"/></xs:sequence></xs:complexType></xs:element></xs:schema>',
+        }
+        for cname, ctext in cyc_docs.items():
+            s.scenarios += 1
+            sc = Scenario('cyclic:' + cname, {'c.xsd': ctext}, 'c.xsd', [])
+            res = sc.explore(ctx)
+            s.count(res)
+            s.samples.append(dict(scenario=sc.name, paths=len(res), outcomes=[o[0] if o[0] != 'ok' else o[1][0] for _, o in res]))
+            for m, out in res:
+                if out[0] in ('panic', 'diverge'):
+                    rc, txt, log_, cfiles = sc.native(ctx, sc.solve(m))
+                    s.replays += 1
+                    rdir = save_replay('C13', 'cyclic_' + cname, dict(list(cfiles.items()) + [('finding.txt', '%s\nnative rc=%s\n%s' % (out[1], rc, (log_ or '')[-500:]))]))
+                    crashed = rc != 0 and ('overflowed its stack' in (log_ or '') or ('panicked' in (log_ or '') and not re.search(r"main\.rs:\d+:\d+:\ncan not (read xml|write xml|read input file|create file)", log_ or '')))
+                    if crashed:
+                        s.rep.violation('c13/%s/cyclic-definitions/%s' % ('non-termination' if out[0] == 'diverge' else 'panic', cname), '%s: %s' % (cname, out[1]), rdir)
+                    else:
+                        s.rep.inconc('ENCODING-MISMATCH cyclic %s: SMI %s, native rc=%s %s' % (cname, out[1], rc, (log_ or '')[-200:]))
         # a message part that names a global component which is not an element (schema-invalid, but any input must be survived)
         single = _to_xml(_build(F.wsdl_multi(1, multipart=False).tree()))
         odd = single.replace('<xs:element name="GetQuoteRequest">', '<xs:attribute name="GetQuoteRequest" type="xs:string"/><xs:element name="Unused">', 1)
